@@ -191,9 +191,9 @@ func (s *Sched) Install() {
 	}
 	hook.AccFn, hook.PoolEvent = nil, nil
 	if s.race != nil {
-		hook.AccFn = func(pkg, site int, base any, loc string, write bool) {
+		hook.AccFn = func(pkg, site int, keep any, addr, size uintptr, label string, write, isMap bool) {
 			if t := s.Cur; t != nil {
-				s.race.access(t, pkg, site, base, loc, write)
+				s.race.access(t, pkg, site, keep, addr, size, label, write, isMap)
 			}
 		}
 		hook.PoolEvent = func(p any, put bool) {
